@@ -310,6 +310,10 @@ func Harness_C14_variables() {
 	ex := executor.New(es)
 	var seen *ComplexityStats
 	ex.Use(&ComplexityLimit{Func: func(ctx context.Context, opCtx *graphql.OperationContext) int { return limit }})
+	if zzsym.Choice("others", 2) == 1 {
+		// another extension that looks at the operation context is installed after the limit: the limit's verdict stands
+		ex.Use(Introspection{})
+	}
 	ctx := graphql.StartOperationTrace(context.Background())
 	if prior := zzsym.Choice("prior", 3); prior > 0 {
 		// the same text was served before with another value of the variable, with a query cache (the parsed
